@@ -1000,6 +1000,24 @@ def c20_r1(ctx):
                 seen_built = True
             else:
                 ctx.viol((e.id, "banner", "CommandExecuted"), "the status printed when the command ran is %s (expected \"Built\" under CommandExecuted)" % sorted(t), p.where)
+    # the "Built" lines are printed whenever the command succeeded
+    ce = e.edges_variant(lambda info, nm, oth, rest: info.get("adt") == "work::WorkOption" and nm == "CommandExecuted")
+    for p in prints:
+        if {x.strip() for x in _banner_texts(e, p.args[1])} != {"Built"} or not e.dominated_by_edges(p.bb, ce):
+            continue
+        # and it is printed whenever the command succeeded: the only way past the loop over
+        # the targets is an edge on which `output.success` is false
+        after = [c2.bb for c2 in e.calls if c2.path.endswith("::insert_blob")]
+        lps2 = [lp2 for lp2 in e.loops() if p.bb in lp2["body"]]
+        if after and lps2:
+            lp2 = min(lps2, key=lambda l: len(l["body"]))
+            sfalse = set()
+            for bb in e.live:
+                info2 = e.switch_info(bb)
+                if info2 and info2.get("origins") and all(o[-1] == ("field", "success") for o in info2["origins"]):
+                    sfalse |= e._bool_edges(info2, False)
+            if any(a2 in e.reach([x for (_, x) in ce], avoid_blocks=[lp2["header"]], avoid_edges=sfalse) for a2 in after):
+                ctx.viol((e.id, "built-not-reported"), "a rule whose command ran and succeeded can get no status line for its targets: something other than `output.success` (what the command wrote to stderr, say) decides whether \"Built\" is printed", p.where)
     # the per-target print is under the Resolutions arm
     res_e = e.edges_variant(lambda info, nm, oth, rest: info.get("adt") == "work::WorkOption" and nm == "Resolutions")
     for p in prints:
@@ -1323,6 +1341,28 @@ def c16_r6(ctx):
         own = {fid} | {t for c in P.fns[fid].calls for t in P.local_targets(c)}
         if not any(x.path.startswith("std::io::Write::write") for g in own if g in P.fns for x in P.fns[g].calls):
             raise AnalysisError("C16.R6: anchor missing: where %s writes the bytes it serialises" % fid)
+
+
+@rule("C16.R7", floor=1)
+def c16_r7(ctx):
+    """What is held is what is saved: the function that writes the file-state table returns Ok
+    only after the rename that puts the new file in place - it has no path that skips the
+    write (a "nothing changed" flag that some mutation forgets to set leaves the old file,
+    with entries the table no longer holds, for the next invocation to read back)."""
+    f = ctx.P.fns.get("current::CurrentFileStates::<SystemType>::to_file")
+    ctx.need(f is not None, "CurrentFileStates::to_file")
+    ctx.saw(f)
+    rn = sys_calls(f, "rename")
+    ctx.need(rn, "the rename that puts the table in place")
+    ctx.inst("table saved", rn[0].where)
+    ok_e = set()
+    for r in rn:
+        ok_e |= f.edges_of_call_variant(r, "Ok")
+    bad = [(bb, idx) for (bb, idx, rv, pl) in f.constructs("std::result::Result", "Ok") if pl["local"] == 0 and not f.dominated_by_edges(bb, ok_e)]
+    if bad:
+        ctx.viol((f.id, "table-save-skipped"), "the table can be reported as saved without having been written: the file of an earlier invocation stays, and the next one reads back states this one no longer held", f.where(bad[0][0], bad[0][1]))
+    else:
+        ctx.ok()
 
 
 @rule("C16.R5", floor=3)
